@@ -42,6 +42,11 @@ pub mod mm {
     }
     #[inline]
     pub fn floor(x: f32) -> f32 {
+        // Micromath converts to an integer type; values this large are
+        // all integers already (or not finite)
+        if !(mm::abs(x) < 8388608.0) {
+            return x;
+        }
         mm::floor(x)
     }
     #[inline]
